@@ -2,6 +2,7 @@
 import copy
 import json
 import os
+import random
 import re
 import signal
 import sys
@@ -30,8 +31,9 @@ class TooDeep(BaseException):
 
 
 # ---------------------------------------------------------------- observer: nesting depth of resolve()
-def expand_with_depth(abbr, cfg):
-    """(result, deepest nesting of snippets.resolve() seen while a definition was parsed)."""
+def expand_with_depth(abbr, cfg, call=None):
+    """(result, deepest nesting of snippets.resolve() seen while a definition was parsed).
+    call: the call route (route_runner) when it is not the plain emmet.expand(abbr, dict)."""
     import emmet.markup  # noqa
     ms = sys.modules['emmet.markup.snippets']
     orig = ms.parse
@@ -55,7 +57,7 @@ def expand_with_depth(abbr, cfg):
     old = signal.signal(signal.SIGPROF, on_alarm)
     signal.setitimer(signal.ITIMER_PROF, TIME_LIMIT)
     try:
-        r = impl_expand(abbr, cfg)
+        r = impl_expand(abbr, cfg) if call is None else route_call(call, abbr)
     except Timeout:
         r = ('timeout',)
     except TooDeep:
@@ -65,6 +67,138 @@ def expand_with_depth(abbr, cfg):
         signal.signal(signal.SIGPROF, old)
         ms.parse = orig
     return r, maxd[0]
+
+
+# ---------------------------------------------------------------- call routes x wrapped text
+# "Expanding" an abbreviation under a configuration can be written in several ways with the names the package exports
+# (emmet/__init__.py: expand, Config, markup_abbreviation, stringify_markup, parse_markup_abbreviation, expand_markup).
+# The property speaks about expanding, not about one entry point: the alias and its definition written in place must
+# agree along every route, also when the configuration carries text to wrap ("wrap with abbreviation": config['text'],
+# a string or a list of lines).
+WRAP_TEXT_AND_ROUTES = True          # generator class: every call route x wrapped text x alias that is not the text target
+EMPTY_WRAP_TEXT = True              # ... including text that is given but false ('' / []): OFF, exposes a genuine defect (see final report of v2-sxc14)
+
+ROUTES = [
+    'expand',                            # emmet.expand(abbr, dict)
+    'config-object',                     # emmet.expand(abbr, Config(dict))
+    'expand-markup',                     # emmet.expand_markup(abbr, Config(dict))
+    'resolve+stringify',                 # stringify_markup(markup_abbreviation(abbr, config), config)
+    'parsed-tree',                       # tree = parse_markup_abbreviation(abbr, parser options of the config);
+                                         # stringify_markup(markup_abbreviation(tree, config), config)      (two-step use)
+    'shared-config',                     # ONE Config object for both forms: alias first, then the definition
+    'shared-config-definition-first',    # ... the definition first, then the alias
+    'shared-config-parsed-tree',         # ... one Config object, both forms parsed first (two-step), alias first
+    'global-type',                       # the user's snippet table given in global_config[type], not in the user config
+    'global-syntax',                     # ... in global_config[syntax]
+]
+SHARED_ROUTES = ('shared-config', 'shared-config-definition-first', 'shared-config-parsed-tree')
+DEFINITION_FIRST = ('shared-config-definition-first',)
+
+
+def abbreviation_params(config):
+    """The options of the abbreviation parser that belong to a configuration (two-step use: the editor parses the
+    abbreviation first and resolves / outputs the tree later with the same configuration)."""
+    return {'text': config.get('text'), 'variables': config.variables, 'options': config.options,
+            'max_repeat': config.get('maxRepeat') or config.get('max_repeat'),
+            'jsx': bool(config.options.get('jsx.enabled')), 'href': config.options.get('markup.href')}
+
+
+def route_runner(route, cfg):
+    """call(abbr) -> output string, along the named route, for the user configuration cfg (a dict)."""
+    import emmet
+    shared = []
+
+    def config():
+        if route in SHARED_ROUTES:
+            if not shared:
+                shared.append(emmet.Config(copy.deepcopy(cfg)))
+            return shared[0]
+        return emmet.Config(copy.deepcopy(cfg))
+
+    def call(abbr):
+        if route == 'expand':
+            return emmet.expand(abbr, copy.deepcopy(cfg))
+        if route in ('config-object', 'shared-config', 'shared-config-definition-first'):
+            return emmet.expand(abbr, config())
+        if route == 'expand-markup':
+            return emmet.expand_markup(abbr, config())
+        if route == 'resolve+stringify':
+            c = config()
+            return emmet.stringify_markup(emmet.markup_abbreviation(abbr, c), c)
+        if route in ('parsed-tree', 'shared-config-parsed-tree'):
+            c = config()
+            tree = emmet.parse_markup_abbreviation(abbr, abbreviation_params(c))
+            tree = emmet.markup_abbreviation(tree, c)
+            return emmet.stringify_markup(tree, c)
+        if route in ('global-type', 'global-syntax'):
+            uc = copy.deepcopy(cfg)
+            table = uc.pop('snippets', None)
+            layer = uc.get('type', 'markup') if route == 'global-type' else uc.get('syntax', 'html')
+            return emmet.expand(abbr, uc, {layer: {'snippets': table}} if table is not None else {})
+        raise ValueError('unknown route %r' % (route,))
+    return call
+
+
+def route_call(call, abbr):
+    from common import Hang
+    from markup_util import _limited_call, classify_exc, CALL_LIMIT_S
+    try:
+        return ('ok', _limited_call(lambda: call(abbr)))
+    except Hang:
+        return ('hang', CALL_LIMIT_S)
+    except Exception as e:  # noqa
+        return classify_exc(e)
+
+
+# Wrapped text goes into the deepest last element of the abbreviation (or into every copy of an element repeated with a
+# bare `*`).  When that element is the alias, the text is "text written on the alias" and goes to the top-level elements
+# of the definition (the statement), which has no in-place spelling in general; in the shapes below the element that
+# receives the text is a plain element next to / above / below the alias, so "the definition in its place" is simply
+# the definition in parentheses.
+TEXT_SHAPES = [('before-target', '%s+p'), ('inside-before-target', 'ul>%s+li'), ('climb-to-target', 'div>%s^span'),
+               ('repeated-before-target', '%s*2+em'), ('before-link-target', '%s+a'), ('before-repeated-target', 'ul>%s+li*'),
+               ('after-repeated-target', 'q*+%s'), ('between', 'i+%s+b>u')]
+WRAP_TEXTS = [None, 'hello', 'two words', 'www.emmet.io', 'me@emmet.io', 'line 1\nline 2', ' padded ', '${1:x} $# [a]{b}',
+              ['one', 'two'], ['one', '', '  three '], ['only'], ['www.emmet.io', 'http://a.b/c'], ['', ' ']]
+EMPTY_TEXTS = ['', []]          # text that is given but false in Python
+REPEATED_TARGET_SHAPES = ('before-repeated-target', 'after-repeated-target')
+_BARE_STAR = re.compile(r'\*(?![0-9])')
+
+
+def wrap_pairs(key, d):
+    """[(shape, abbreviation with the alias, the same with the definition in its place)]: the alias is not the text target."""
+    if '$#' in d or _BARE_STAR.search(re.sub(r'\[[^\]]*\]|\{[^}]*\}', '', d)):
+        return []          # a definition that asks for the wrapped text itself reads differently inside the table
+    out = [(nm, fmt % key, fmt % ('(%s)' % d)) for nm, fmt in TEXT_SHAPES]
+    if su.ends_with_element(d):
+        out.append(('child-is-target', key + '>b', d + '>b'))
+    return out
+
+
+_FIXED = random.Random(1400)          # the built-in tables get the same draws in every run
+
+
+def wrap_route_cases(key, d, cfg, kind, rng=None, n=1, **extra):
+    """n cases for one key: a shape, a wrapped text and a call route each, drawn independently (from rng for the
+    generated tables, from a fixed stream for the built-in ones)."""
+    pairs = wrap_pairs(key, d)
+    if not pairs:
+        return []
+    rng = rng or _FIXED
+    texts = WRAP_TEXTS + (EMPTY_TEXTS if EMPTY_WRAP_TEXT else [])
+    out = []
+    for _ in range(n):
+        shape, a, b = rng.choice(pairs)
+        text, route = rng.choice(texts), rng.choice(ROUTES)
+        if isinstance(text, list) and not any(l.strip() for l in text) and shape in REPEATED_TARGET_SHAPES:
+            # no line to wrap: the element repeated with a bare `*` has no copy at all, the text target is the alias again
+            shape, a, b = pairs[0]
+        c = copy.deepcopy(cfg)
+        if text is not None:
+            c['text'] = copy.deepcopy(text)
+        tk = 'none' if text is None else 'given-but-false' if not text else 'blank-lines-only' if not ''.join(text).strip() else 'list' if isinstance(text, list) else 'string'
+        out.append(dict(extra, kind='%s:wrap:%s' % (kind, shape), a=a, b=b, config=c, route=route, text_kind=tk))
+    return out
 
 
 # ---------------------------------------------------------------- random user tables
@@ -720,6 +854,14 @@ def builtin_cases():
                 for kind, a, b, deco in override_pairs(k, d, cfg, rev):
                     cases.append({'kind': 'builtin:' + kind + (':reversed' if rev else ''), 'a': a, 'b': b, 'config': cfg,
                                   'equal': b is not None, 'bound': None, 'key': k, 'deco': deco})
+    if WRAP_TEXT_AND_ROUTES:
+        # every key once (xsl / pug: the keys those tables add or change), two draws of (shape, wrapped text, call route)
+        own = (('html', dict(markup_snippets)), ('xsl', dict(xsl_snippets)), ('pug', dict(pug_snippets)))
+        for syn, tbl in own:
+            for k, d in tbl.items():
+                if mentions_lorem_text(k + d):
+                    continue
+                cases += wrap_route_cases(k, d, {'syntax': syn}, 'builtin', None, 2, equal=True, bound=None)
     return cases
 
 
@@ -803,6 +945,20 @@ def user_cases(ctx, n_tables, tables=None):
     return cases
 
 
+def user_wrap_cases(ctx, tables):
+    """Second pass over the generated tables (after all of them are drawn, so the tables of a given VERIF_SEED stay what
+    they were): every key once with a drawn (shape, wrapped text, call route)."""
+    cases = []
+    if not WRAP_TEXT_AND_ROUTES:
+        return cases
+    for cfg, table in tables:
+        bound = len(set(table.values()))
+        for k, d in table.items():
+            cyc = text_reaches_itself(table, k)
+            cases += wrap_route_cases(k, d, cfg, 'user-cyclic' if cyc else 'user', ctx.rng, 1, equal=not cyc, bound=bound)
+    return cases
+
+
 def corpus_cases():
     d = os.path.join(VERIF, 'corpus', 'C14')
     out = []
@@ -816,7 +972,16 @@ def corpus_cases():
 
 def check_case(c):
     """The property oracle on the implementation.  Returns (why or None, result of a, depth)."""
-    ra, depth = expand_with_depth(c['a'], c['config'])
+    route = c.get('route') or 'expand'
+    call = None if route == 'expand' else route_runner(route, c['config'])
+    rb = None
+    if route in DEFINITION_FIRST and c.get('equal') and c.get('b') is not None:
+        # under the same observer: this form uses the snippet table as well (termination and the nesting bound hold for it too)
+        rb, depth_b = expand_with_depth(c['b'], c['config'], call)
+        if rb[0] in ('recursion', 'too-deep', 'timeout'):
+            return ('along the call route %r, definition-in-place form %r: resolution does not terminate within the bound (%s, nesting depth '
+                    'reached %d)' % (route, c['b'], rb[0], depth_b)), rb, depth_b
+    ra, depth = expand_with_depth(c['a'], c['config'], call)
     if ra[0] == 'recursion':
         return 'resolution does not terminate (RecursionError)', ra, depth
     if ra[0] == 'too-deep':
@@ -828,9 +993,11 @@ def check_case(c):
     if c.get('bound') is not None and depth > c['bound']:
         return 'snippet nesting depth %d exceeds the number of snippets %d' % (depth, c['bound']), ra, depth
     if c.get('equal') and c.get('b') is not None:
-        rb = impl_expand(c['b'], c['config'])
+        if rb is None:
+            rb = impl_expand(c['b'], c['config']) if call is None else route_call(call, c['b'])
         if rb != ra:
-            return 'alias form gives %r, definition in its place (%r) gives %r' % (ra[1][:300], c['b'], str(rb[1] if rb[0] == 'ok' else rb)[:300]), ra, depth
+            return '%salias form gives %r, definition in its place (%r) gives %r' % (
+                '' if call is None else 'along the call route %r: ' % route, ra[1][:300], c['b'], str(rb[1] if rb[0] == 'ok' else rb)[:300]), ra, depth
     if c['kind'].endswith('repeat-in-parent'):
         # the repeater written on the alias is carried by every top-level node of the definition
         t = au.impl_tree(c['a'], c['config'])
@@ -890,6 +1057,20 @@ def run(ctx):
                        'position of the definition\'s attribute, alias attributes first when reversed; written value read off the plain element '
                        'zzq<deco>), and expand(KEY<deco>) = expand(definition with <deco> written on its top-level elements); skipped: top-level '
                        'text nodes, label[for] / xsl:variable[select] which addon steps drop; '
+                       'CALL ROUTES x WRAPPED TEXT: every built-in key (html; the keys xsl / pug add) twice and every key of every user table once, '
+                       'each time with a drawn shape, a drawn config[\'text\'] and a drawn call route.  Shapes (the alias is NOT the element that receives '
+                       'the wrapped text, so the definition in its place is the definition in parentheses): KEY+p, ul>KEY+li, div>KEY^span, KEY*2+em, KEY+a '
+                       '(link target), ul>KEY+li* and q*+KEY (target repeated once per line), i+KEY+b>u, KEY>b for definitions that end in an element.  '
+                       'Texts: none, word, two words, URL, e-mail, two lines, padded, text with ${1:x} $# [a]{b}, lists of 1-3 lines with blank and padded '
+                       'lines, list of URLs, list of blank lines only (not with the per-line shapes: no line, no copy of the target).  Routes, all written '
+                       'with the names the package exports: expand(abbr, dict); expand(abbr, Config); expand_markup(abbr, Config); '
+                       'stringify_markup(markup_abbreviation(abbr, config), config); the two-step use parse_markup_abbreviation(abbr, parser options of the '
+                       'config) then markup_abbreviation(tree, config) then stringify_markup; ONE Config object shared by both forms (alias first / definition '
+                       'first / both parsed first); the user table given through global_config[type] / global_config[syntax] instead of the user config.  '
+                       'Oracle: along the same route, output of the alias form = output of the definition-in-place form (keys whose definition does not reach '
+                       'itself), termination and nesting bound as above; the route\'s output of the alias form is also compared with the extracted model of '
+                       'expand() for the same configuration.  Text that is given but false (\'\' / []) is generated only when EMPTY_WRAP_TEXT is on '
+                       '(off: known genuine difference, definitions of aliases absorb the empty text); '
                        'parse_snippets multi-key expansion; every alias form also through the extracted model. '
                        'non-trivial = decorated alias or user table; distinct by abbreviation + config.')
     multikey_check(ctx)
@@ -899,6 +1080,7 @@ def run(ctx):
     tables = []
     cases += user_cases(ctx, 400 if ctx.tier == 'quick' else 4000, tables)
     cases += variable_round_cases()
+    cases += user_wrap_cases(ctx, tables)
     lap('generate')
     wires, idx, impl = [], [], []
     maxdepth = 0
@@ -916,6 +1098,10 @@ def run(ctx):
         ctx.count_eval()
         ctx.cover('C14:' + c['kind'])
         ctx.cover('C14:depth:%d' % depth)
+        if 'route' in c:
+            ctx.cover('C14:route:%s' % c['route'])
+            ctx.cover('C14:wrapped-text:%s' % c['text_kind'])
+            ctx.cover('C14:route-x-text:%s:%s' % (c['route'], 'text' if c['text_kind'] in ('string', 'list') else 'no-text'))
         if c['kind'] not in ('builtin:alone',):
             ctx.nontrivial((c['a'], canon_cfg(c['config'])))
         if why:
@@ -991,5 +1177,6 @@ def replay(ctx, obj):
     for pa, pcfg in rp.get('prelude') or []:
         print('earlier call of the sequence: expand(%r, %r) -> %r' % (pa, pcfg, impl_expand(pa, pcfg)))
     why, ra, depth = check_case(rp)
-    print('expand(%r, %r) -> %r (depth %d)\nproperty oracle: %s' % (rp['a'], rp['config'], ra, depth, why or 'holds'))
+    print('expand(%r, %r)%s -> %r (depth %d)\nproperty oracle: %s' % (
+        rp['a'], rp['config'], ' along the call route %r' % rp['route'] if rp.get('route') else '', ra, depth, why or 'holds'))
     return 1 if why else 0
